@@ -381,5 +381,5 @@ MANIFEST = {
     "statistics.NormalDist. Not covered: noise realisations outside the alphabet, sizes between the lattice points, profiles "
     "mixing flat and stepped chromosomes, stepped chromosomes with a centromere gap, non-default thresholds, hmm and "
     "hmm-tumor (outside the claim), cbs/flasso (no R here).",
-    "technique": "explicit enumeration of a finite profile family on the real segmentation code, statement clauses as oracle",
+    "technique": "explicit enumeration of a finite profile family on the real segmentation code, statement clauses as oracle; a slice re-run under real worker pools",
 }
